@@ -47,14 +47,19 @@ DEFECT_VARIANTS = {
     # (the lines of [act] are in ACT, per actor; this entry gives the number of variants)
     'act_syntax': [0, 1, 2, 3],
     'undef_symbol': ['def string U = @[UNDEFINED]@', 'def list UL = a @[UNDEFINED]@', '$ echo @[UNDEFINED]@',
-                     'def path UP = -rel UNDEFINED x'],
+                     'def path UP = -rel UNDEFINED x',
+                     # names of letters that are not ASCII, inside strings
+                     'def string U2 = "@[r\u00e9sultat]@"', 'file u3.txt = "x @[gr\u00f6\u00dfe]@"', '$ echo @[\u00fc]@'],
     'missing_home_file': ['run -python -existing-file -rel-home missing.py', 'run -rel-home missing-program',
                           'copy -rel-home missing.txt',
                           'copy /nonexistent-dir-of-verif/missing.txt', 'copy -rel HERE_PATH missing.txt',
                           'run -python -existing-file -rel-act-home missing.py',
                           # an argument given where a program SYMBOL is referenced
                           'run @ PGM x -existing-file -rel-home missing.py', 'run @ PGM2 -existing-path missing-path',
-                          'file f2.txt = -contents-of -rel-home missing.txt -transformed-by ( replace a b | grep c )'],
+                          'file f2.txt = -contents-of -rel-home missing.txt -transformed-by ( replace a b | grep c )',
+                          # what must be a file is a DIRECTORY (which exists, and is "executable" for the OS)
+                          'run -rel-home a-directory', 'run -python -existing-file -rel-home a-directory',
+                          'copy -rel-home a-directory/missing.txt'],
     'bad_integer': ['timeout = 1.5', 'timeout = abc', 'timeout = "1 +"',
                     {'assert': 'dir-contents . : matches {\n  a.txt\n  a.txt : contents num-lines == 1.5\n}',
                      'other': 'timeout = 2.5'},
@@ -131,7 +136,7 @@ def concretize(c, mark):
     text = ''.join(parts)
     if c['defect'] == 'defined_later':
         text += '[cleanup]\ndef string LATER = v\n'
-    files = {'c.case': text, 'script.sh': 'touch %s/act\n' % mark, 'exists.txt': 'x\n'}
+    files = {'c.case': text, 'script.sh': 'touch %s/act\n' % mark, 'exists.txt': 'x\n', 'a-directory/in.txt': 'x\n'}
     if c['frontend'] == 'symbol':
         argv = ['symbol', 'c.case']
     else:
